@@ -118,6 +118,11 @@ def family_cases(rng):
     cx = [(rng.choice([1.0, 2.5, 0.0]), rng.choice([1.0, -2.0, 0.5])) for _ in range(n)]
     cpay = [["complex", alpha.fl(a), alpha.fl(b)] for a, b in cx]
     add("complex", "Complex", "complex128", [["complex", a, b] for a, b in cx], "complex128", [["nan"]], cpay)
+    # an imaginary part is an imaginary part however small: the answer is Complex itself
+    tiny = [(rng.choice([1.5, 2.0, 3e-12]), rng.choice([2e-9, -1e-12, 4e-300])) for _ in range(n)]
+    tpay = [["complex", alpha.fl(a), alpha.fl(b)] for a, b in tiny]
+    add("complex", "Complex", "complex128 tiny imaginary", [["complex", a, b] for a, b in tiny], "complex128", [["nan"]], tpay, exact=True)
+    add("complex", "Complex", "strings tiny imaginary/object", [["str", "%r" % complex(a, b)] for a, b in tiny], "object", [["nan"]], tpay, exact=True)
     for dt, sent in (("object", [["nan"]]), ("str", [["nan"], ["none"]])):
         add("complex", "Complex", "strings/" + dt, [["str", "%r" % complex(a, b)] for a, b in cx], dt, sent, cpay)
     # datetimes (some non-midnight), dates, times, timedeltas
